@@ -31,7 +31,7 @@ func init() {
 	})
 	Register(&Rule{
 		Name:  "R-SIBLING-PREFIX",
-		Props: []string{"C13"},
+		Props: []string{"C13", "C01"},
 		Min:   4,
 		Doc: "ScanPaths (pkg/manifest) and buildPathResolver (internal/app) agree on the special base names, the collision predicate, the ordinal expression and format, " +
 			"and the key construction prefix+baseName; the resolver keys on the first '/'-segment",
